@@ -99,6 +99,9 @@ def run_one(name, tier):
                                       "replay_summary": rp, "wall_s": round(time.time() - t0, 1)}
     finally:
         sh("git -C /repo worktree remove --force %s" % wt)
+        # the run rewrote the evidence files with what it saw on the patched tree: restore the committed ones
+        for pid in props:
+            sh("git -C %s checkout -- evidence/%s.json" % (V, pid))
         # the run regenerated lean/MdsVerif/Gen from the patched tree: restore it from /repo
         sh("cd %s/extract && go build -o /tmp/seeded-extract . && /tmp/seeded-extract -repo /repo -out %s/lean/MdsVerif/Gen; rm -f /tmp/seeded-extract" % (V, V))
     res["caught"] = any(c["caught"] for c in res["checks"].values())
